@@ -8,6 +8,10 @@ THEOREMS = {
     "C03": ["Cntgs.C03.objects_aligned", "Cntgs.C03.storage_alignment_suffices", "Cntgs.C03.next_element_start_aligned",
             "Cntgs.C03.relocation_keeps_layout"],
     "C04": ["Cntgs.C04.fields_ordered", "Cntgs.C04.span_sizes", "Cntgs.C04.element_extent", "Cntgs.C04.first_field_at_element_start"],
+    "C13": ["Cntgs.C13.ne_is_negation", "Cntgs.C13.elem_eq_iff_content_generic", "Cntgs.C13.elem_eq_refl_generic",
+            "Cntgs.C13.elem_eq_symm_generic", "Cntgs.C13.vec_eq_needs_equal_size", "Cntgs.C13.vec_eq_empty"],
+    "C14": ["Cntgs.C14.elem_operators", "Cntgs.C14.vec_operators", "Cntgs.C14.elem_lt_strict", "Cntgs.C14.vec_lt_strict",
+            "Cntgs.C14.elem_incomparable_trans", "Cntgs.C14.vec_lt_is_lexicographical"],
     "C05": ["Cntgs.C05.fields_greedy", "Cntgs.C05.alignUp_is_lowest", "Cntgs.C05.elements_greedy", "Cntgs.C05.units_tight"],
 }
 
@@ -78,7 +82,40 @@ def stream_alloc(seed, tier):
     return out
 
 
+COMPARE_CORPUS = [
+    gen.Cfg("cmp-u8", [("p", "u8", 1), ("p", "u8", 1)]),
+    gen.Cfg("cmp-u8-fixed", [("f", "u8", 1), ("p", "u8", 1)]),
+    gen.Cfg("cmp-u8-varying", [("p", "u8", 1), ("v", "u8", 1), ("p", "u8", 1)]),
+    gen.Cfg("cmp-u8-padded", [("p", "u8", 1), ("p", "u8", 4), ("p", "u8", 1)]),
+    gen.Cfg("cmp-u8-u32-padded", [("p", "u8", 1), ("p", "u32", 4)]),
+    gen.Cfg("cmp-u16-fixed-padded", [("f", "u16", 1), ("p", "u8", 1), ("f", "u16", 8)]),
+    gen.Cfg("cmp-int-int", [("p", "u32", 1), ("p", "u32", 1)]),
+    gen.Cfg("cmp-f32", [("p", "f32", 1), ("f", "f32", 1)]),
+    gen.Cfg("cmp-blob-varying", [("p", "u16", 1), ("v", "b3", 1), ("p", "b5", 2)]),
+    gen.Cfg("cmp-trk", [("p", "u8", 1), ("v", "t5", 1), ("p", "t8", 1)]),
+    gen.Cfg("cmp-mixed-runs", [("p", "u8", 1), ("p", "t5", 1), ("p", "u8", 1), ("p", "u8", 2), ("f", "u8", 1)]),
+]
+
+
+def stream_compare(seed, tier):
+    """triples of vectors over a two-value domain, every operand pair and triple: C13, C14"""
+    rng = random.Random(seed * 15485863 + 4)
+    cfgs = list(COMPARE_CORPUS)
+    for i in range(10 if tier == "quick" else 80):
+        c = gen.random_cfg(rng, "Q%d" % i, category=["plain", "fixed", "varying", "mixed"][i % 4], tracked=(i % 5 == 0), maxlen=4)
+        if i % 2 == 0:  # memcmp family: unsigned integers only
+            c = gen.Cfg(c.name, [(k, rng.choice(["u8", "u8", "u16", "u32"]) if not (k == "p" and j + 1 < len(c.params) and c.params[j + 1][0] == "v") else t, al)
+                                 for j, (k, t, al) in enumerate(c.params)])
+        cfgs.append(c)
+    out = []
+    for c in cfgs:
+        for s in range(3 if tier == "quick" else 8):
+            out.append((c, gen.gen_compare(rng, c, 30 if tier == "quick" else 80)))
+    return out
+
+
 STREAMS = {
+    "C13": stream_compare, "C14": stream_compare,
     "C01": stream_history, "C02": stream_layout, "C03": stream_layout, "C04": stream_layout, "C05": stream_layout,
     "C06": stream_history, "C10": stream_history, "C16": stream_history, "C18": stream_history,
     "C07": stream_alloc, "C08": stream_alloc, "C09": stream_alloc,
